@@ -1,11 +1,7 @@
-_C03_EXT = ["default", "noavx2", "purego", "force32bit"]   # public API: dispatch differs in all four
-_C03_INT = ["default", "purego", "force32bit"]             # explicit Generic+Vector calls: noavx2 adds nothing
+_C03_B3 = ["default", "purego", "force32bit"]
 
-def _c03(q, t, qs, ts, cfgs=None):
-    d = T(q, t, shards={"quick": qs, "thorough": ts})
-    if cfgs:
-        d["configs"] = cfgs
-    return d
+def _c03(q, t, qs, ts):
+    return T(q, t, shards={"quick": qs, "thorough": ts})
 
 PROPS["C03"] = {
     "title": "Group law and every scalar-multiplication routine give the true group result",
@@ -30,19 +26,32 @@ PROPS["C03"] = {
              "identity / a torsion point / of mixed order / stored with Z != 1, or the term count is 0 or at a threshold "
              "(189..192, 499..501, 799..801); distinct = FNV-64 of the serialised case"),
     "assumptions": ["math/big is correct", "verifref curve constants and formulas (self-tested against published vectors)"],
-    "units": [{
-        "pkg": "curve", "configs": {"quick": ALL4, "thorough": ALL4},
-        "tests": {
-            "TestC03GroupLaw":      _c03(1600, 60000, 1, 8),
-            "TestC03ScalarMul":     _c03(1000, 40000, 2, 16),
-            "TestC03MSMSmall":      _c03(1200, 40000, 2, 16),
-            "TestC03MSMLarge":      _c03(40, 1500, 1, 8),
-            "TestC03Ristretto":     _c03(400, 12000, 2, 16),
-            "TestC03ImplModels":    _c03(800, 30000, 1, 8, _C03_INT),
-            "TestC03ImplScalarMul": _c03(800, 30000, 2, 16, _C03_INT),
-            "TestC03ImplMSMSmall":  _c03(500, 16000, 4, 16, _C03_INT),
-            "TestC03ImplMSMLarge":  _c03(40, 1200, 2, 16, _C03_INT),
-            "TestC03ImplRistretto": _c03(400, 12000, 1, 8, _C03_INT),
+    "units": [
+        {   # three arithmetic backends; the in-package tests call Generic and (on AVX2) Vector explicitly
+            "pkg": "curve", "configs": _C03_B3,
+            "tests": {
+                "TestC03GroupLaw":      _c03(1600, 40000, 1, 8),
+                "TestC03ScalarMul":     _c03(800, 20000, 2, 16),
+                "TestC03MSMSmall":      _c03(1000, 24000, 2, 16),
+                "TestC03MSMLarge":      _c03(40, 1000, 1, 8),
+                "TestC03Ristretto":     _c03(300, 8000, 2, 16),
+                "TestC03ImplModels":    _c03(800, 20000, 1, 8),
+                "TestC03ImplScalarMul": _c03(600, 16000, 2, 16),
+                "TestC03ImplMSMSmall":  _c03(400, 10000, 4, 16),
+                "TestC03ImplMSMLarge":  _c03(40, 800, 2, 16),
+                "TestC03ImplRistretto": _c03(400, 8000, 1, 8),
+            },
         },
-    }],
+        {   # same binary with AVX2 masked: the public API now dispatches to the serial code on the assembly field
+            # backend (and keeps the packed serial basepoint table); the explicit in-package calls would repeat "default"
+            "pkg": "curve", "configs": ["noavx2"],
+            "tests": {
+                "TestC03GroupLaw":      _c03(800, 20000, 1, 8),
+                "TestC03ScalarMul":     _c03(500, 10000, 1, 8),
+                "TestC03MSMSmall":      _c03(500, 12000, 1, 8),
+                "TestC03MSMLarge":      _c03(30, 500, 1, 8),
+                "TestC03Ristretto":     _c03(200, 4000, 1, 8),
+            },
+        },
+    ],
 }
